@@ -10,7 +10,7 @@ RULE = ("is_prime: every n in [-5, 2^20) in the thorough tier (quick: [-5, 6000)
         "published strong pseudoprimes to the first k prime bases (psi_1..psi_12), Carmichael numbers, p*q for consecutive primes, "
         "1229/1231/1229^2 boundary, 2^k +- small for k at the round-table thresholds (with the recorded int(math.log(n,2))), random "
         "odd n of 21..1400 bits; next_prime on [-3, 3000) + boundaries + random; factorization on [-2, 3000 | 20000) + prime powers, "
-        "p*q around 1229^2, large prime cofactors; gcd/lcm on [0,12]^3 + signed/large tuples in both calling conventions, empty and "
+        "p*q around 1229^2, large prime cofactors; gcd/lcm on [0,12]^3 + signed/large tuples in both calling conventions (one-argument form as list, tuple, generator, iter, map, reversed, set, frozenset, range, dict view), empty and "
         "single arguments; a case is distinct by its operation line; non-trivial = all")
 ASSUMPTIONS = [
     "C16x (deprecated helpers, not anchored by any property): phi/carmichael equal Nat.totient / Mathlib's Carmichael function given "
@@ -261,6 +261,10 @@ def correspond(ctx):
         c.add(("lcm_sep " + sep).strip(), lambda: str(nt.lcm(*t)), tag)
         c.add("gcd_iter " + fmt_list(t), lambda: str(nt.gcd(list(t))), tag)
         c.add("lcm_iter " + fmt_list(t), lambda: str(nt.lcm(tuple(t))), tag)
+        if tag in ("small2", "signed/large") and t:
+            c.add("lcm_iter " + fmt_list(t), lambda: str(nt.lcm(x for x in t)), tag + ".generator")
+            c.add("gcd_iter " + fmt_list(t), lambda: str(nt.gcd(iter(t))), tag + ".iter")
+            c.add("lcm_iter " + fmt_list(t), lambda: str(nt.lcm(map(int, t))), tag + ".map")
         if len(t) == 2:
             c.add("gcd2 %d %d" % tuple(t), lambda: str(nt.gcd2(*t)), tag)
             c.add("gcd2_fallback %d %d" % tuple(t), lambda: str(dead(*t)), tag + ".fallback")
@@ -321,6 +325,40 @@ def check_gcd_lcm(nt, t):
     return bad
 
 
+def iterable_forms(t):
+    """(name, thunk producing a FRESH argument) for the single-iterable convention, one-shot iterables included"""
+    t = list(t)
+    forms = [("list", lambda: list(t)), ("tuple", lambda: tuple(t)), ("generator", lambda: (x for x in t)),
+             ("iter", lambda: iter(t)), ("map", lambda: map(int, t)), ("reversed", lambda: reversed(t)),
+             ("dict_keys", lambda: dict.fromkeys(t).keys())]
+    if len(set(t)) == len(t):
+        forms.append(("set", lambda: set(t)))
+        forms.append(("frozenset", lambda: frozenset(t)))
+    if len(t) >= 2 and t[0] < t[1] and all(t[i + 1] - t[i] == t[1] - t[0] for i in range(len(t) - 1)):
+        forms.append(("range", lambda: range(t[0], t[-1] + 1, t[1] - t[0])))
+    return forms
+
+
+def check_gcd_lcm_forms(nt, t):
+    """every iterable form of the one-argument convention must give gcd / lcm of the VALUES (t: naturals, len >= 1)"""
+    g = 0
+    for x in t:
+        g = math.gcd(g, x)
+    l = 1
+    for x in t:
+        l = 0 if (x == 0 or l == 0) else l * x // math.gcd(l, x)
+    bad = []
+    for name, fn, want in (("gcd", nt.gcd, g), ("lcm", nt.lcm, l)):
+        for form, mk in iterable_forms(t):
+            try:
+                got = fn(mk())
+            except Exception as ex:  # noqa
+                got = "exception " + common.errname(ex)
+            if got != want:
+                bad.append({"fn": name, "convention": "iterable:" + form, "args": list(t), "got": got, "expected": want})
+    return bad
+
+
 def search(ctx):
     from ecdsa import numbertheory as nt
     n_eval = 0
@@ -377,6 +415,16 @@ def search(ctx):
         n_eval += 1
         ctx.hist("search", "gcd_lcm")
         for b in check_gcd_lcm(nt, tuple(t)):
+            viol(b)
+            if len(ctx.violations) >= 5:
+                return
+    # one-shot and other iterable kinds (generator, iter, map, reversed, set, range, dict view) in the one-argument form
+    forms_t = corpus + [(4, 6), (6, 4), (2, 3, 4), (4, 3, 2), (12, 18, 8), (5,), (3, 5, 7), (2, 4, 6, 8), (10, 20, 30), (7, 7), (0, 4, 6)] + \
+        [tuple(ctx.rng.randrange(0, 200) for _ in range(ctx.rng.choice([1, 2, 3, 4]))) for _ in range(30 if ctx.quick else 300)]
+    for t in forms_t:
+        n_eval += 1
+        ctx.hist("search", "gcd_lcm.iterables")
+        for b in check_gcd_lcm_forms(nt, tuple(t)):
             viol(b)
             if len(ctx.violations) >= 5:
                 return
@@ -547,6 +595,8 @@ def replay(rec):
         return check_next_prime(nt, int(i["n"])) is not None
     if fn == "factorization":
         return check_fact(nt, int(i["n"])) is not None
+    if fn in ("gcd", "lcm") and str(i.get("convention", "")).startswith("iterable:"):
+        return bool(check_gcd_lcm_forms(nt, tuple(int(x) for x in i["args"])))
     if fn in ("gcd", "lcm"):
         return bool(check_gcd_lcm(nt, tuple(int(x) for x in i["args"])))
     if fn in ("phi", "carmichael", "order_mod", "largest_factor_relatively_prime", "int_to_string", "modular_exp"):
